@@ -209,6 +209,8 @@ def parse_operand(s):
         return ('move', parse_place(s[5:]))
     if s.startswith('const '):
         return ('const', parse_const(s[6:]))
+    if re.match(r'[A-Za-z_<]', s):
+        return ('const', ('path', s))         # fn item / enum constructor used as a value
     raise ValueError('operand ' + s)
 
 
